@@ -199,9 +199,9 @@ func main() {
 		Assumptions: []string{"format reached through the verif hook consoleui.VerifFormat"},
 		Cases: func(t string) int {
 			if t == "thorough" {
-				return 200000
+				return 1000000
 			}
-			return 6000
+			return 20000
 		},
 		Floor: func(t string) int {
 			if t == "thorough" {
